@@ -385,6 +385,12 @@ def whole(S, cfg):
             S.eq(f'duct2gap.conservative[{i}]', sum(u[j] * G[j, i] for j in range(m)), w[i])
         for j in range(m):
             S.eq(f'gap2duct.conservative[{j}]', sum(w[i] * F[i, j] for i in range(n)), u[j])
+        # reciprocity: both maps are the same overlap matrix, w_i F_ij = u_j G_ji  (what makes the heat computed on
+        # the duct mesh with gap values mapped one way equal the heat computed on the gap mesh with duct values
+        # mapped the other way: C02)
+        for i in range(n):
+            for j in range(m):
+                S.eq(f'reciprocity[{i},{j}]', w[i] * F[i, j], u[j] * G[j, i])
     if coincide:
         for i in range(n):
             for j in range(n):
